@@ -196,6 +196,11 @@ func main() {
 	// ---- 3. static violations + search for a failing execution
 	budget := 20 * time.Second
 	seen := map[string]bool{}
+	type searchRes struct {
+		found bool
+		ev    evidence
+	}
+	searched := map[string]searchRes{} // one search per offending function, shared by its fields
 	for _, d := range append(append([]diag{}, rep.Diagnostics...), rep.NotSingle...) {
 		key := d.Check + ":" + d.Func + ":" + fieldLabel(d.Field)
 		if seen[key] || (d.Check == "single_section" && len(byFunc[d.Func]) > 0) {
@@ -215,10 +220,18 @@ func main() {
 		detail := fmt.Sprintf("%s: %s", d.Func, describe(d))
 		rc := replayCase{Kind: "static", Func: d.Func, Field: d.Field, Diags: same}
 		if d.Check == "well_locked" && d.Field != "" {
-			found, ev := searchRace(rep, d, budget, rng.Fork())
+			sr, done := searched[d.Func]
+			if !done {
+				sr.found, sr.ev = searchRace(rep, d, budget, rng.Fork())
+				searched[d.Func] = sr
+			}
+			found, ev := sr.found, sr.ev
 			rc.Tried = ev.Tried
 			if found {
 				rc.Kind, rc.Store, rc.A, rc.B, rc.Mode, rc.Evidence, rc.Seconds = "pair", ev.Store, ev.A, ev.B, ev.Mode, ev.Evidence, ev.Seconds
+				if strings.HasPrefix(ev.B, "(full relay") {
+					rc.Kind = "relay"
+				}
 				detail += fmt.Sprintf("; reproduced: %s concurrently with %s (%s build) -> %s", ev.A, ev.B, ev.Mode, firstLine(ev.Evidence))
 				res.Count("violation_reproduced")
 			} else {
@@ -232,7 +245,12 @@ func main() {
 	}
 
 	// ---- 4. mutation self-check of the translator + obligations
-	mutationCheck(res, rep, args, rng.Fork())
+	if len(rep.Errors) == 0 {
+		mutationCheck(res, rep, args, rng.Fork())
+	} else {
+		res.Notes = append(res.Notes, fmt.Sprintf("the translator failed closed on %d construct(s) (reported by the driver, clause=translation); mutation self-check skipped", len(rep.Errors)))
+		res.CountN("translator_fail_closed", len(rep.Errors))
+	}
 
 	// ---- 5. supporting evidence: race stress (skipped when the static part already failed: the reports would repeat it)
 	if len(rep.Diagnostics) == 0 {
@@ -353,6 +371,17 @@ func replay(res *lib.Result, rep *report, rc replayCase) {
 		} else {
 			res.Notes = append(res.Notes, "replay: no race report / fatal error this time")
 		}
+	case "relay":
+		res.Evaluations = 1
+		for try := int64(1); try <= 3; try++ {
+			out := runRelayChild(6, try)
+			if hit, text := raceOnGuarded(rep, out); hit {
+				res.Violate(lib.Violation{Clause: "unsynchronised-access", Case: -1, Key: "replay",
+					Detail: "replayed: full relay under 16 clients (race build) -> " + firstLine(text), Replay: rc})
+				return
+			}
+		}
+		res.Notes = append(res.Notes, "replay: no race report this time")
 	default:
 		// static violations replay as the translator's verdict on the current tree
 		res.Evaluations = rep.Functions
